@@ -170,6 +170,7 @@ type ServerOpts struct {
 	Env           []string
 	Strace        string // when set: path of the strace output file; the server runs under strace -f
 	MetricsPort   int
+	Verbose       bool // run the server with --verbose (debug logging)
 }
 
 var srvCounter atomic.Int64
@@ -196,6 +197,9 @@ func StartServer(parent string, cf ConfSpec, o ServerOpts) (*ServerProc, error) 
 		return nil, err
 	}
 	args := []string{"--config", s.CfgPath, "--metrics", s.MetricsAddr, "--replay_history", strconv.Itoa(o.ReplayHistory)}
+	if o.Verbose {
+		args = append(args, "--verbose")
+	}
 	if o.UDPTimeout > 0 {
 		args = append(args, "--udptimeout", o.UDPTimeout.String())
 	}
